@@ -1121,7 +1121,30 @@ func engineConnClose(rng *rand.Rand, n int, tier string, o *Out) {
 		ok := true
 		// a directed prefix in part of the cases: the admission race (a call req between the state
 		// check and the re-check while Close lands)
-		switch rng.Intn(5) {
+		switch rng.Intn(7) {
+		case 5, 6:
+			// V07: the OUTBOUND admission race with no inbound call in flight -- beginCall has passed its
+			// state check (parked at outbound.afterStateCheck), Close runs to its end: the connection walks
+			// on to Closed (nothing in flight) or InboundClosed (an earlier outbound call in flight) inside
+			// that Close; then the call start resumes: it must fail at the re-check (outcome 22)
+			if rng.Intn(2) == 0 {
+				labels = append(labels, "D:begincall@checked|close|resume")
+				ok = w.opCaller(1<<4) && w.opCloser(0)
+				ncallers++
+			} else {
+				labels = append(labels, "D:outflight,begincall@checked|close|resume")
+				ok = w.opCaller(0) && w.opCaller(1<<4) && w.opCloser(0)
+				ncallers += 2
+			}
+			nclosers++
+			if ok {
+				for _, t := range w.parked() {
+					if t.kind == 4 {
+						ok = w.resume(t, 0)
+						break
+					}
+				}
+			}
 		case 0:
 			labels = append(labels, "D:callreq|close|resume")
 			ok = w.opReader(w.nextInID, 1<<2) && w.opCloser(0)
